@@ -260,15 +260,20 @@ func runC06(w *World) {
 		if staleSize {
 			class = "C06/caught-up-stale-size"
 		} else if len(renamed) > 0 {
-			dk, hd := diffKeys(lm.states[len(lm.entries)], dump)
-			all := !hd
-			for _, k := range dk {
-				if !renamed[k] {
-					all = false
+			// attributed to the rename finding only if, for some admissible prefix, every
+			// differing collection was named by a rename applied during a leader rewrite
+			for k := len(lm.entries); k >= lo; k-- {
+				dk, hd := diffKeys(lm.states[k], dump)
+				all := !hd
+				for _, x := range dk {
+					if !renamed[x] {
+						all = false
+					}
 				}
-			}
-			if all {
-				class = "C06/caught-up-rename"
+				if all {
+					class = "C06/caught-up-rename"
+					break
+				}
 			}
 		}
 		w.violate(class, "the follower reports caught_up=true but its dataset is not the leader's after any log prefix in [%d,%d] (the leader had acknowledged %d writes when the follower last connected); against the newest state: %v; leader log rewritten during the handshake: %v; renames during a leader rewrite touched %v",
